@@ -163,6 +163,7 @@ func (s *Sweeper) sweep(ctx context.Context) error {
 			})
 			if limitReached {
 				l.Debug("Sweep limit reached, continuing after pause")
+				verifSliceYield(dbiName)
 				// Give the app some room to get a write lock before continuing
 				if err := utils.SleepContext(ctx, s.conf.ReleaseDuration); err != nil {
 					return err
